@@ -134,6 +134,10 @@ RICH_FLOWIR = {
         {"name": "ba", "stage": 0, "command": {"executable": "cat", "arguments": "gen/out.txt:ref %(alpha)s %(tag)s", "environment": "envB"},
          "references": ["gen/out.txt:ref"], "variables": {"tag": "%(alpha)s-%(zeta)s-tag", "mine": "m"},
          "resourceManager": {"kubernetes": {"podSpec": {"nodeSelector": {"pool": "ba", "zone": "ba-zone"}}}}},
+        # names that differ only by trailing digits, different programs, the longer one replicates (replicas sim10, sim11):
+        # "sim10" reads as sim1 + "0" and as sim + "10"
+        {"name": "sim", "stage": 0, "command": {"executable": "sort", "arguments": "-r"}},
+        {"name": "sim1", "stage": 0, "command": {"executable": "uniq", "arguments": "-c %(replica)s"}, "workflowAttributes": {"replicate": 2}},
         {"name": "solo", "stage": 0, "command": {"executable": "echo", "arguments": "%(label)s %(local)s"},
          "variables": {"label": "%(greeting)s-%(alpha)s", "local": "solo-local", "zeta": "solo-zeta"},
          "resourceManager": {"kubernetes": {"podSpec": {"tolerations": [{"key": "solo"}], "nodeSelector": {"disk": "ssd", "pool": "solo"}}}}},
